@@ -40,7 +40,7 @@ for p in props:
             "replay_cmd_template": "cat {path}  # holds the failing input (or the broken theorem / stream) and the exact re-run command",
             "engine": "lean-model",
             "technique": t.get("technique", "Lean 4 theorem about the model + checked correspondence of the model with the crate"),
-            "level_claimed": {"category": cfg.get("level", "proof"), "text": t.get("level_text", ""), "design_ref": "DESIGN.md §7 " + pid},
+            "level_claimed": {"category": cfg.get("level", "proof"), "text": t.get("level_text", "") + ((" PARTIAL: " + cfg["partial"]) if cfg.get("partial") else ""), "design_ref": "DESIGN.md §7 " + pid},
             "level_note": t.get("level_note", "Trusted: Lean kernel (axioms propext, Classical.choice, Quot.sound), tools/gen_consts.py, the hand-written model tied to the code by the correspondence streams of this property; see evidence.assumptions."),
         })
     else:
